@@ -39,8 +39,11 @@ inductive RPc
   | held (write : Bool) (rv : String)
 deriving Repr
 
+/-- one committed operation: the thread, (ghost) the index of the call of that thread whose step
+    performed it, the operation, the result string -/
 structure RLin where
   tid : Nat
+  idx : Nat
   op : ROp
   res : String
 
@@ -52,9 +55,9 @@ structure St where
   lockR : List Nat := []
   lin : List RLin := []
 
-def rEff (s : St) (tid : Nat) (op : ROp) : St × String :=
+def rEff (s : St) (tid idx : Nat) (op : ROp) : St × String :=
   let r := specApply s.colls s.reg op
-  ({ s with reg := r.1, lin := s.lin ++ [⟨tid, op, r.2⟩] }, r.2)
+  ({ s with reg := r.1, lin := s.lin ++ [⟨tid, idx, op, r.2⟩] }, r.2)
 
 def parseOp (op : String) : Option ROp :=
   let n := opName op
@@ -78,12 +81,12 @@ def step (s : St) (e : Ev) : Except String St :=
         | some .gather =>
           guard (e.k == "R" && e.loc == "lk") "gather: expected the read lock" <|
           guard s.lockW.isNone "read lock granted while a writer holds the lock" <|
-          let (s1, rv) := rEff s e.tid .gather
+          let (s1, rv) := rEff s e.tid th.idx .gather
           .ok (setTh { s1 with lockR := e.tid :: s1.lockR } { th with pc := some (.held false rv) })
         | some rop =>
           guard (e.k == "X" && e.loc == "lk") "register / unregister: expected the write lock" <|
           guard (s.lockW.isNone && s.lockR.isEmpty) "write lock granted while the lock is held" <|
-          let (s1, rv) := rEff s e.tid rop
+          let (s1, rv) := rEff s e.tid th.idx rop
           .ok (setTh { s1 with lockW := some e.tid } { th with pc := some (.held true rv) })
       | .held write rv =>
         if write then
